@@ -358,7 +358,7 @@ func sameLV(l ref.Leaf, a, b ref.LV) bool {
 	}
 	switch l.Phys {
 	case ref.Boolean:
-		return (a.I != 0) == (b.I != 0)
+		return a.I == b.I // booleans must decode to exactly 0 or 1
 	case ref.Int32, ref.Float:
 		return uint32(a.I) == uint32(b.I)
 	case ref.Int64, ref.Double:
